@@ -12,7 +12,7 @@ for D in /verif/seeded/*/; do
   git -C /repo apply $D/patch.diff 2>/dev/null || { echo "$N $P PATCH-DOES-NOT-APPLY" | tee -a $OUT; continue; }
   /verif/bin/check $P --tier quick > /tmp/seeded_$N.out 2>&1; RC=$?
   V=$(grep -c "^VIOLATION" /tmp/seeded_$N.out)
-  FIRST=$(grep "^VIOLATION" /tmp/seeded_$N.out | head -1 | sed 's/.*obligation=//' | cut -c1-110)
+  FIRST=$(grep "^VIOLATION" /tmp/seeded_$N.out | head -1 | sed 's/.*obligation=//' | cut -c1-260)
   echo "$N $P exit=$RC violations=$V $FIRST" | tee -a $OUT
   TOUCHED="$TOUCHED $P"
   git -C /repo checkout -- .
